@@ -1,0 +1,10 @@
+//go:build verif
+
+// Contracts for the verifier in /verif (comment-only; adds no code).
+package utils
+
+//@ func MinBigInt
+//@   requires [args-nonnil] a != nil && b != nil
+//@   ensures  [fresh]  {C04} result != nil && fresh(ref(result))
+//@   ensures  [is-min] {C04} val(result) == min(val(a), val(b))
+//@   modifies nothing
